@@ -156,6 +156,17 @@ def gen(rng):
             steps.append(['l', tdir + '/files/eiolink', home + '/precious'])
             steps.append(['f', tdir + '/info/eiolink.trashinfo', G.fmt_info(TG.pct(home + '/w/eiolink'), '2021-01-02T00:00:00'), 0o600])
             faults.append({'kind': 'cond', 'what': 'immutable', 'entry': '%RESOLVE%' + tdir + '/files/eiolink'})
+    if rng.random() < 0.08:
+        # the volume is full / over quota in the way copy-on-write file systems are: even unlink needs room (ENOSPC, EDQUOT).
+        # The payload is a link to a file (or a directory) outside; whatever is tried to get rid of it goes for the link
+        import errno as E_
+        tdir = rng.choice(locs)[0]
+        steps.append(['d', tdir + '/files', 0o700])
+        steps.append(['d', tdir + '/info', 0o700])
+        steps.append(['l', tdir + '/files/nospacelink', rng.choice([home + '/precious/keep.txt', home + '/precious/keep.txt', home + '/precious'])])
+        steps.append(['f', tdir + '/info/nospacelink.trashinfo', G.fmt_info(TG.pct(home + '/w/nospacelink'), '2021-01-03T00:00:00'), 0o600])
+        faults.append({'kind': 'cond', 'what': 'name_errno', 'ops': ['remove', 'unlink'], 'basename': 'nospacelink', 'errno': rng.choice([E_.ENOSPC, E_.EDQUOT])})
+        names.append('nospacelink')
     abyss = rng.random() < 0.004
     if abyss:
         # an abyss: a trashed tree nested deeper than the interpreter's recursion limit, with links to the outside at its top
